@@ -4,6 +4,7 @@ package netutil
 
 import (
 	"github.com/AdguardTeam/golibs/internal/verifrt"
+	"golang.org/x/net/idna"
 )
 
 // ---- reference grammar written from the property statement ----
@@ -226,6 +227,55 @@ func VerifC03Boundaries() {
 	want := c03Ref(s, kind)
 	verifrt.ObserveBool("ok", err == nil)
 	verifrt.Assert((err == nil) == want, "validator differs from the documented grammar at a length boundary")
+	c03CheckErr(err, s)
+	if want {
+		verifrt.Cover("valid")
+	} else {
+		verifrt.Cover("invalid")
+	}
+}
+
+// VerifC03IDN: internationalised names whose raw and punycode lengths lie on
+// opposite sides of the 253-byte limit (the limit applies to the result of
+// idna.ToASCII, which is executed for real), plus one arbitrary ASCII byte in
+// the final label.
+func VerifC03IDN() {
+	var s string
+	switch verifrt.Choice(2) {
+	case 0:
+		// k two-byte labels: 3k raw bytes, 8k punycode bytes
+		k := 29 + verifrt.Choice(4)
+		for i := 0; i < k; i++ {
+			s += "я."
+		}
+	default:
+		// k labels of 40 two-byte letters: 81k raw bytes, far fewer in punycode
+		k := 3 + verifrt.Choice(3)
+		for i := 0; i < k; i++ {
+			for j := 0; j < 40; j++ {
+				s += "а"
+			}
+			s += "."
+		}
+	}
+	c := verifrt.Byte()
+	verifrt.Assume(c < 0x80 && c != '.' && c != 'x')
+	s += "c" + string([]byte{c})
+	t, terr := idna.ToASCII(s)
+	kind := verifrt.Choice(3)
+	var err error
+	switch kind {
+	case c03Host:
+		err = ValidateHostname(s)
+	case c03SRV:
+		err = ValidateSRVDomainName(s)
+	default:
+		err = ValidateDomainName(s)
+	}
+	want := terr == nil && c03Ref(t, kind)
+	verifrt.ObserveBool("ok", err == nil)
+	verifrt.ObserveInt("ascii-len", int64(len(t)))
+	verifrt.Assert((err == nil) == want, "validator differs from the documented grammar applied to idna.ToASCII of an internationalised name")
 	c03CheckErr(err, s)
 	if want {
 		verifrt.Cover("valid")
